@@ -547,9 +547,9 @@ def do_step(ctx, step, log):
                 keep = [i for i in range(n) if mask[i]]
             nm = m.derive(rows=[m.rows[i] for i in keep], ids=[m.ids[i] for i in keep] if m.ids is not None else None)
         elif op in ("head", "tail"):
-            k = rg.randint(1, n + 1)
+            k = rg.randint(0, n + 1)  # 0 (nothing) and n + 1 (more than there is) are legal
             new = ld.head(k) if op == "head" else ld.tail(k)
-            keep = list(range(n))[:k] if op == "head" else list(range(n))[-k:]
+            keep = list(range(n))[:k] if op == "head" else list(range(n))[max(0, n - k):]
             nm = m.derive(rows=[m.rows[i] for i in keep], ids=[m.ids[i] for i in keep] if m.ids is not None else None)
         elif op == "sample":
             k = rg.randint(1, n)
@@ -600,11 +600,11 @@ def do_step(ctx, step, log):
                 keep = [i for i, u in enumerate(mm.rows) if ctx.master[u]["val"] > thr]
                 groups.append((k, mm.derive(rows=[mm.rows[i] for i in keep], ids=[mm.ids[i] for i in keep] if mm.ids is not None else None)))
         elif op in ("group_head", "group_tail"):
-            k_ = rg.randint(1, 3)
+            k_ = rg.randint(0, 3)
             new = g.head(k_) if op == "group_head" else g.tail(k_)
             for k, mm in gm.groups:
                 idx = list(range(len(mm.rows)))
-                keep = idx[:k_] if op == "group_head" else idx[-k_:]
+                keep = idx[:k_] if op == "group_head" else idx[max(0, len(idx) - k_):]
                 groups.append((k, mm.derive(rows=[mm.rows[i] for i in keep], ids=[mm.ids[i] for i in keep] if mm.ids is not None else None)))
         else:
             if min(len(mm.rows) for _, mm in gm.groups) < 1:
